@@ -37,9 +37,16 @@ uint64_t vr_nondet_u64(void);
 #ifdef __CPROVER__
 void* alloca(size_t);
 #define vr_alloca(n) alloca(n)
+#define VR_POISON(p, n) ((void)0)
+#elif defined(VR_SYM)
+#include <alloca.h>
+/* stack memory is poisoned so that a float read from uninitialised storage is an invalid handle */
+#define vr_alloca(n) memset(alloca((n) + 1), 0xAB, (n) + 1)
+#define VR_POISON(p, n) memset((p), 0xAB, (n))
 #else
 #include <alloca.h>
 #define vr_alloca(n) alloca(n)
+#define VR_POISON(p, n) ((void)0)
 #endif
 #define vr_memcpy(d,s,n) memcpy((d),(s),(n))
 #define vr_memmove(d,s,n) memmove((d),(s),(n))
